@@ -1560,7 +1560,7 @@ class Verifier(Exec):
     def contract_call(self, st, ins, callee, spec, args, bindings=()):
         self.callees.add(callee)
         for fn_, cl_ in getattr(self.spec, 'callsites', None) or []:
-            if short_fn(callee).split('.', 1)[-1] == fn_ or short_fn(callee) == fn_:
+            if short_fn(callee) == fn_ or short_fn(callee).endswith('.' + fn_):
                 self.env_line = self.cur_line
                 try:
                     env_ = dict(self.spec_env(self.scope_at_line(self.cur_line)))
